@@ -34,10 +34,10 @@ type c12Req struct {
 }
 
 type c12Case struct {
-	TokenLength int      `json:"token_length"`
-	TokenLookup string   `json:"token_lookup"`
-	CookieName  string   `json:"cookie_name"`
-	ContextKey  string   `json:"context_key"`
+	TokenLength int    `json:"token_length"`
+	TokenLookup string `json:"token_lookup"`
+	CookieName  string `json:"cookie_name"`
+	ContextKey  string `json:"context_key"`
 	// ErrorHandler: 0 = nil; 1 = custom handler that writes its own 418 and returns nil;
 	// 2 = custom handler that returns its own 409 error
 	ErrorHandler int      `json:"error_handler,omitempty"`
@@ -894,13 +894,13 @@ func c12Shrink(ci any) []any {
 
 func init() {
 	register(&Prop{
-		ID:     "C12",
-		Rule:   "one CSRF middleware per case (TokenLength 0/1..255 with the uint8 boundaries 203..208, 254, 255; 12 TokenLookup shapes with 1-3 sources, prefix cut, non-canonical header names; 4% ignored/failing/param/cookie sources, compared with the model only; a third with a custom ErrorHandler that writes its own 418 and returns nil, or returns its own 409 error) x 1-3 requests: 27 method spellings (standard, lower/mixed case, padded, custom, empty) x cookie present/empty/absent/look-alike name/duplicated x client token exact (alone, among 3/20/21/25 values, beside wrong tokens at other sources), near miss (prefix, suffix, case change, padding, NUL, bit flip, empty), absent, at a non-configured or unparsed location, or guessed fresh token; random source = seeded byte stream per request (uniform, mostly rejected bytes, boundary bytes 200..215, whole first buffer rejected, too short); non-trivial = an unsafe request that passed, or was rejected although cookie and client tokens were present; distinct = distinct model op lines",
-		New:    func() any { return &c12Case{} },
-		Gen:    c12Gen,
-		Run:    c12RunScoped,
-		Shrink: c12Shrink,
-		Serial: true,
+		ID:             "C12",
+		Rule:           "one CSRF middleware per case (TokenLength 0/1..255 with the uint8 boundaries 203..208, 254, 255; 12 TokenLookup shapes with 1-3 sources, prefix cut, non-canonical header names; 4% ignored/failing/param/cookie sources, compared with the model only; a third with a custom ErrorHandler that writes its own 418 and returns nil, or returns its own 409 error) x 1-3 requests: 27 method spellings (standard, lower/mixed case, padded, custom, empty) x cookie present/empty/absent/look-alike name/duplicated x client token exact (alone, among 3/20/21/25 values, beside wrong tokens at other sources), near miss (prefix, suffix, case change, padding, NUL, bit flip, empty), absent, at a non-configured or unparsed location, or guessed fresh token; random source = seeded byte stream per request (uniform, mostly rejected bytes, boundary bytes 200..215, whole first buffer rejected, too short); non-trivial = an unsafe request that passed, or was rejected although cookie and client tokens were present; distinct = distinct model op lines",
+		New:            func() any { return &c12Case{} },
+		Gen:            c12Gen,
+		Run:            c12RunScoped,
+		Shrink:         c12Shrink,
+		Serial:         true,
 		Correspondence: "C12.serve / C12.randomString (lean/EchoModel/C12.lean) vs middleware.CSRFWithConfig + extractors + randomString with the injected random source",
 	})
 }
